@@ -35,12 +35,7 @@ pub fn to_val(t: &OwnedTerm) -> Val {
         OwnedTerm::Pid(p) => local_wrap(p.local_ext_bytes.as_deref(), pid_val(p)),
         OwnedTerm::Port(p) => local_wrap(p.local_ext_bytes.as_deref(), Val::Port { node: p.node.name.to_string(), id: p.id, creation: p.creation }),
         OwnedTerm::Reference(r) => local_wrap(r.local_ext_bytes.as_deref(), ref_val(r)),
-        OwnedTerm::ExternalFun(f) => Val::Tuple(vec![
-            Val::atom("$external_fun"),
-            Val::Atom(f.module.name.to_string()),
-            Val::Atom(f.function.name.to_string()),
-            Val::int(i128::from(f.arity)),
-        ]),
+        OwnedTerm::ExternalFun(f) => Val::Export(f.module.name.to_string(), f.function.name.to_string(), f.arity),
         OwnedTerm::InternalFun(_) => Val::atom("$internal_fun"),
     }
 }
@@ -91,6 +86,7 @@ pub fn from_val(v: &Val) -> OwnedTerm {
         Val::Pid { node, id, serial, creation } => OwnedTerm::Pid(ExternalPid::new(Atom::new(node), *id, *serial, *creation)),
         Val::Port { node, id, creation } => OwnedTerm::Port(ExternalPort::new(Atom::new(node), *id, *creation)),
         Val::Ref { node, creation, ids } => OwnedTerm::Reference(ExternalReference::new(Atom::new(node), *creation, ids.clone())),
+        Val::Export(m, f, a) => OwnedTerm::ExternalFun(erltf::types::ExternalFun::new(Atom::new(m), Atom::new(f), *a)),
         Val::Local(hash, inner) => {
             // node-local bytes as a peer would have sent them: hash + the identifier's encoding
             let mut bytes = hash.clone();
